@@ -334,9 +334,40 @@ func (m *Machine) scanWire(op string) {
 				}
 			}
 		}
+		// C17: a swap hands the mint exactly its fee - anything beyond that is value nobody holds any more
+		if endpoint == "/v1/swap" && r.Status == 200 && m.Opt.Owns["C17"] {
+			m.checkSwapBurn(op, r)
+		}
 		// C19: outputs submitted for signing
 		if endpoint == "/v1/swap" || endpoint == "/v1/mint/bolt11" || endpoint == "/v1/melt/bolt11" {
 			m.scanOutputs(op, r, endpoint)
+		}
+	}
+}
+
+func (m *Machine) checkSwapBurn(op string, r wenv.Req) {
+	var body struct {
+		Inputs  cashu.Proofs          `json:"inputs"`
+		Outputs cashu.BlindedMessages `json:"outputs"`
+	}
+	mw := m.E.MintByURL("http://" + r.Host)
+	if mw == nil || json.Unmarshal(r.Body, &body) != nil || len(body.Inputs) == 0 {
+		return
+	}
+	mw.RefreshKeysets()
+	in, out := body.Inputs.Amount(), uint64(0)
+	for _, o := range body.Outputs {
+		out += o.Amount
+	}
+	fee := mw.FeeFor(body.Inputs)
+	m.Count["swaps_checked_for_burn"]++
+	if fee > 0 {
+		m.Count["swaps_with_fee_checked_for_burn"]++
+	}
+	if in != out+fee {
+		sig := "value_burned_in_swap|flow=" + opClass(op)
+		if !rec.IsKnown("C17|" + sig) {
+			m.Fail("C17", sig, "%s swaps inputs worth %d (mint fee for them %d) for outputs worth %d: %d sat are held by nobody afterwards (flow %s)", r.Wallet, in, fee, out, int64(in)-int64(out)-int64(fee), op)
 		}
 	}
 }
